@@ -95,6 +95,10 @@ def getDBusEndpoints(reactor, busAddress, client=True):
                 path = d['tmpdir'] + '/dbus-' + str(os.getpid())
             elif 'abstract' in d:
                 path = '\0' + d['abstract']
+            else:
+                # nothing a client can dial (runtime=yes, dir=...): the
+                # other addresses of the list are still to be tried
+                continue
 
             if client:
                 ep = UNIXClientEndpoint(reactor, path=path)
